@@ -561,7 +561,23 @@ func (ms *Modules) include(m *Module) error {
 	}
 
 	// Next process any imports in this module.  Imports are used
-	// when searching.
+	// when searching.  A prefix stands for one module (RFC 7950 7.1.5):
+	// a second import under a prefix, or one under the prefix of the
+	// module itself, would leave what the prefix means to the order in
+	// which the import statements are written.
+	prefixes := map[string]string{}
+	if own := m.getPrefix(); own != nil {
+		prefixes[own.Name] = "the module itself"
+	}
+	for _, i := range m.Import {
+		if i.Prefix == nil {
+			continue
+		}
+		if other, dup := prefixes[i.Prefix.Name]; dup {
+			return fmt.Errorf("%s: prefix %s of import %s is already used by %s", Source(i), i.Prefix.Name, i.Name, other)
+		}
+		prefixes[i.Prefix.Name] = "import " + i.Name
+	}
 	for _, i := range m.Import {
 		im := ms.FindModule(i)
 		if im == nil {
